@@ -208,10 +208,7 @@ func classifySys(msg string) string {
 	if c := classifyAuthErr(msg); !strings.HasPrefix(c, "other(") {
 		return "auth"
 	}
-	if len(msg) > 70 {
-		msg = msg[:70]
-	}
-	return "other(" + strings.ReplaceAll(msg, " ", "_") + ")"
+	return otherClass(msg)
 }
 
 func (e *sysEx) txid(sym string) string {
